@@ -591,7 +591,9 @@ class TransverselyIsotropic(_Elastic):
         axis_t = AsCoords(axis_t)
         assert axis_l.size == 3 and len(axis_l.shape) == 1, "axis_l must be a 3D vector"
         assert axis_t.size == 3 and len(axis_t.shape) == 1, "axis_t must be a 3D vector"
-        assert axis_l @ axis_t <= 1e-12, "axis1 and axis2 must be perpendicular"
+        assert abs(axis_l @ axis_t) <= 1e-12 * np.linalg.norm(axis_l) * np.linalg.norm(
+            axis_t
+        ), "axis1 and axis2 must be perpendicular"
         self.__axis_l = Normalize(axis_l)
         self.__axis_t = Normalize(axis_t)
 
@@ -878,7 +880,9 @@ class Orthotropic(_Elastic):
         axis_2 = AsCoords(axis_2)
         assert axis_1.size == 3 and len(axis_1.shape) == 1, "axis_1 must be a 3D vector"
         assert axis_2.size == 3 and len(axis_2.shape) == 1, "axis_2 must be a 3D vector"
-        assert axis_1 @ axis_2 <= 1e-12, "axis1 and axis2 must be perpendicular"
+        assert abs(axis_1 @ axis_2) <= 1e-12 * np.linalg.norm(axis_1) * np.linalg.norm(
+            axis_2
+        ), "axis1 and axis2 must be perpendicular"
         self.__axis_1 = Normalize(axis_1)
         self.__axis_2 = Normalize(axis_2)
 
@@ -1164,7 +1168,9 @@ class Anisotropic(_Elastic):
         axis2 = AsCoords(axis2)
         assert axis1.size == 3 and len(axis1.shape) == 1, "axis1 must be a 3D vector"
         assert axis2.size == 3 and len(axis2.shape) == 1, "axis2 must be a 3D vector"
-        assert axis1 @ axis2 <= 1e-12, "axis1 and axis2 must be perpendicular"
+        assert abs(axis1 @ axis2) <= 1e-12 * np.linalg.norm(axis1) * np.linalg.norm(
+            axis2
+        ), "axis1 and axis2 must be perpendicular"
         self.__axis1 = Normalize(axis1)
         self.__axis2 = Normalize(axis2)
 
